@@ -20,7 +20,7 @@ from utype.utils import exceptions as uexc   # noqa: E402
 
 ID = "C18"
 LEVEL = "model_checking"
-RULE = ("(a) 17 recursive declarations + 4 of them x 8 further options beside the limit (ignore_constraints, no_explicit_cast, no_data_loss, addition, ignore_required, data_first_search, case_insensitive, no_default) (two of them collecting errors, an outer class whose override=True options carry the limit for a nested class without / with a larger one, Optional['N'], 'N' = None, List['N'], Tuple['N', ...], Dict[str, 'N'], Union[int, 'N'], "
+RULE = ("(a) 17 recursive declarations + 4 of them x 10 further options beside the limit (ignore_constraints, no_explicit_cast, no_data_loss, addition, ignore_required, data_first_search, case_insensitive, no_default, invalid_items=exclude, invalid_values=exclude); depth verdicts compared over four entry points (class, type_transform, function parameter, list element); DAG inputs (two of them collecting errors, an outer class whose override=True options carry the limit for a nested class without / with a larger one, Optional['N'], 'N' = None, List['N'], Tuple['N', ...], Dict[str, 'N'], Union[int, 'N'], "
         "any_of('N', None), mutual recursion through a second class, List[Optional['N']], @utype.dataclass, DataClass base, a declared "
         "__init__ on a decorated class and on a Schema) x max_depth in {None, 1, 2, 3, 4} x inputs of "
         "data-class depth 1..6 with the nested value at list index 0 / 1 / 2, mapping key 'k' / '' / '0', either union branch, plain or "
